@@ -31,23 +31,24 @@ import (
 )
 
 type cfg struct {
-	D        int // dispatcher threads
-	Batches  int // batches per dispatcher
-	Slots    int
-	Merge    int
-	MaxReq   int
-	Elapsed  time.Duration // -1 = retries disabled
-	DynHdr   bool
+	D          int // dispatcher threads
+	Batches    int // batches per dispatcher
+	Slots      int
+	Merge      int
+	MaxReq     int
+	Elapsed    time.Duration // -1 = retries disabled
+	DynHdr     bool
+	Shutdown   bool // one batch, then the forwarder's context ends: the last flush must be posted before Run returns (shutdown.go)
 	Emit       bool // the forwarder's metrics goroutine emits (and resets its gauges) at any point of two flushes whose posts take different times (emit.go)
 	Event      bool // an event is dispatched too, and its dispatcher then waits for events (the shutdown sequence)
 	BrokenBody bool // upstream outcome 1 is "202 Accepted, but the response body cannot be read to its end" instead of a 503
 	CustomHdr  bool // a static custom header named like the first dynamic header (the dynamic one is then ignored, the others stay)
-	Dyn2     bool // two dynamic-header names (region, service); series with both, with one of them twice, with one, with none
-	Failures int  // failure budget of the upstream
-	BadUTF8  bool // dispatcher 0 sends a tag with invalid UTF-8
-	Ticks    int
-	Compress bool // compressed bodies
-	PerBatch int  // counters per dispatched batch (default 1), each with its own region tag when DynHdr
+	Dyn2       bool // two dynamic-header names (region, service); series with both, with one of them twice, with one, with none
+	Failures   int  // failure budget of the upstream
+	BadUTF8    bool // dispatcher 0 sends a tag with invalid UTF-8
+	Ticks      int
+	Compress   bool // compressed bodies
+	PerBatch   int  // counters per dispatched batch (default 1), each with its own region tag when DynHdr
 }
 
 func (c cfg) per() int {
@@ -58,7 +59,7 @@ func (c cfg) per() int {
 }
 
 func (c cfg) String() string {
-	return fmt.Sprintf("D%d-B%d-s%d-m%d-r%d-el%v-dyn%v%v-f%d-bad%v-t%d-z%v-p%d", c.D, c.Batches, c.Slots, c.Merge, c.MaxReq, c.Elapsed, c.DynHdr, c.Dyn2, c.Failures, c.BadUTF8, c.Ticks, c.Compress, c.PerBatch) + map[bool]string{true: "-event"}[c.Event] + map[bool]string{true: "-brokenbody"}[c.BrokenBody] + map[bool]string{true: "-customhdr"}[c.CustomHdr] + map[bool]string{true: "-emit"}[c.Emit]
+	return fmt.Sprintf("D%d-B%d-s%d-m%d-r%d-el%v-dyn%v%v-f%d-bad%v-t%d-z%v-p%d", c.D, c.Batches, c.Slots, c.Merge, c.MaxReq, c.Elapsed, c.DynHdr, c.Dyn2, c.Failures, c.BadUTF8, c.Ticks, c.Compress, c.PerBatch) + map[bool]string{true: "-event"}[c.Event] + map[bool]string{true: "-brokenbody"}[c.BrokenBody] + map[bool]string{true: "-customhdr"}[c.CustomHdr] + map[bool]string{true: "-emit"}[c.Emit] + map[bool]string{true: "-shutdown"}[c.Shutdown]
 }
 
 type attempt struct {
@@ -71,18 +72,19 @@ type attempt struct {
 }
 
 type run struct {
-	c         cfg
-	h         *statsd.HttpForwarderHandlerV2
-	mock      *clock.Mock
-	attempts  []attempt
-	evPosts   int
-	failsLeft int
-	returned  []int // per datapoint id: 0 not yet, else the tick count at which its dispatch returned
-	ticksDone int
-	viol      string
-	violKey   string
-	obj       *int
-	delays    map[string]time.Duration // Emit configuration: how long the upstream takes to answer a body with that datapoint (no environment choice)
+	c           cfg
+	h           *statsd.HttpForwarderHandlerV2
+	mock        *clock.Mock
+	attempts    []attempt
+	evPosts     int
+	failsLeft   int
+	returned    []int // per datapoint id: 0 not yet, else the tick count at which its dispatch returned
+	ticksDone   int
+	viol        string
+	violKey     string
+	obj         *int
+	runReturned bool
+	delays      map[string]time.Duration // Emit configuration: how long the upstream takes to answer a body with that datapoint (no environment choice)
 }
 
 func (r *run) fail(k, m string) {
@@ -162,13 +164,18 @@ func (u upstream) RoundTrip(req *http.Request) (*http.Response, error) {
 // brokenReader: the upstream accepted the request, the connection broke while its (irrelevant) answer was read
 type brokenReader struct{}
 
-func (brokenReader) Read([]byte) (int, error) { return 0, errors.New("connection reset while reading the response") }
+func (brokenReader) Read([]byte) (int, error) {
+	return 0, errors.New("connection reset while reading the response")
+}
 
 func dpName(d, b, k int) string { return fmt.Sprintf("d%db%dk%d", d, b, k) }
 
 func body(c cfg, r *run) func(*vsched.Exec) {
 	if c.Emit {
 		return emitBody(c, r)
+	}
+	if c.Shutdown {
+		return shutdownBody(c, r)
 	}
 	return func(x *vsched.Exec) {
 		*r = run{c: c, failsLeft: c.Failures, returned: make([]int, c.D*c.Batches*c.per()), obj: new(int)}
@@ -379,7 +386,7 @@ func check(c cfg, r *run, outcomes map[string]struct{}) func(*vsched.Exec, vsche
 			return "invalid-counter", fmt.Sprintf("invalid=%d", cn[0])
 		}
 		rf, rc, mf, mc := r.h.VerifSemaphores()
-		if rf != rc || mf != mc {
+		if (rf != rc || mf != mc) && !c.Shutdown { // (Run takes every token for good when it shuts down)
 			return "semaphore-leak", fmt.Sprintf("at quiescence request semaphore %d/%d, merge semaphore %d/%d", rf, rc, mf, mc)
 		}
 		// dynamic headers: every series in a request carrying its region
@@ -467,19 +474,24 @@ func configs() []cfg {
 	cs := []cfg{
 		{D: 2, Batches: 1, Slots: 1, Merge: 1, MaxReq: 1, Elapsed: 3 * time.Second, Failures: 1, Ticks: 2},
 		{D: 2, Batches: 1, Slots: 2, Merge: 2, MaxReq: 2, Elapsed: -1, Failures: 1, Ticks: 2},
-		{D: 1, Batches: 2, Slots: 1, Merge: 1, MaxReq: 1, Elapsed: 3 * time.Second, Failures: 5, Ticks: 1},
-		{D: 2, Batches: 1, Slots: 2, Merge: 1, MaxReq: 2, Elapsed: 3 * time.Second, DynHdr: true, Failures: 0, Ticks: 2},
+		{D: 1, Batches: 2, Slots: 1, Merge: 1, MaxReq: 1, Elapsed: 3 * time.Second, Failures: 3, Ticks: 1},
 		{D: 2, Batches: 1, Slots: 1, Merge: 1, MaxReq: 1, Elapsed: 3 * time.Second, BadUTF8: true, Failures: 0, Ticks: 2},
-		{D: 1, Batches: 1, PerBatch: 4, Slots: 1, Merge: 1, MaxReq: 2, Elapsed: 3 * time.Second, Dyn2: true, Failures: 0, Ticks: 1},
-		{D: 1, Batches: 1, Slots: 1, Merge: 1, MaxReq: 1, Elapsed: 3 * time.Second, Failures: 0, Ticks: 1, Event: true},
+		{D: 1, Batches: 1, PerBatch: 4, Slots: 1, Merge: 1, MaxReq: 1, Elapsed: 3 * time.Second, Dyn2: true, Failures: 0, Ticks: 1},
+		{D: 0, Batches: 0, Slots: 1, Merge: 1, MaxReq: 1, Elapsed: 3 * time.Second, Failures: 0, Ticks: 1, Event: true},
 		{D: 1, Batches: 1, PerBatch: 4, Slots: 1, Merge: 1, MaxReq: 2, Elapsed: 3 * time.Second, Dyn2: true, CustomHdr: true, Failures: 0, Ticks: 1},
 		{D: 1, Batches: 2, Slots: 1, Merge: 1, MaxReq: 1, Elapsed: 3 * time.Second, Failures: 2, Ticks: 1, BrokenBody: true},
 		{D: 1, Batches: 2, Slots: 1, Merge: 1, MaxReq: 1, Elapsed: 3 * time.Second, Ticks: 2, Emit: true},
+		{D: 1, Batches: 1, Slots: 1, Merge: 1, MaxReq: 1, Elapsed: 3 * time.Second, Shutdown: true},
+		{D: 1, Batches: 1, Slots: 2, Merge: 2, MaxReq: 2, Elapsed: 3 * time.Second, Shutdown: true},
 		// two compressed bodies of one flush in flight together, one of them retried
 		{D: 1, Batches: 1, PerBatch: 2, Slots: 1, Merge: 1, MaxReq: 2, Elapsed: 3 * time.Second, DynHdr: true, Failures: 1, Ticks: 1, Compress: true},
 	}
 	if vrt.Thorough() {
 		cs = append(cs,
+			cfg{D: 1, Batches: 2, Slots: 1, Merge: 1, MaxReq: 1, Elapsed: 3 * time.Second, Failures: 5, Ticks: 1},
+			cfg{D: 2, Batches: 1, Slots: 2, Merge: 1, MaxReq: 2, Elapsed: 3 * time.Second, DynHdr: true, Failures: 0, Ticks: 2},
+			cfg{D: 1, Batches: 1, PerBatch: 4, Slots: 1, Merge: 1, MaxReq: 2, Elapsed: 3 * time.Second, Dyn2: true, Failures: 0, Ticks: 1},
+			cfg{D: 1, Batches: 1, Slots: 1, Merge: 1, MaxReq: 1, Elapsed: 3 * time.Second, Failures: 0, Ticks: 1, Event: true},
 			cfg{D: 2, Batches: 2, Slots: 2, Merge: 1, MaxReq: 2, Elapsed: 3 * time.Second, Failures: 2, Ticks: 3},
 			cfg{D: 3, Batches: 1, Slots: 2, Merge: 2, MaxReq: 1, Elapsed: -1, Failures: 1, Ticks: 2},
 			cfg{D: 2, Batches: 2, Slots: 1, Merge: 2, MaxReq: 2, Elapsed: 3 * time.Second, DynHdr: true, Failures: 1, Ticks: 2})
